@@ -17,6 +17,8 @@ import signal
 
 from ..impl import corevm as cv
 from ..impl import corevm_gen as gen
+from ..impl import valjson as vj
+from ..translate import corevm as trvm
 
 PROPERTY = "C09"
 THEOREM_MODULE = "NemoVerif.Theorems.C09"
@@ -118,6 +120,54 @@ def snapshot(state):
     }
 
 
+OUT_DROP = ("type", "uid", "event_created_at", "source_uid", "action_info_modality", "action_info_modality_policy",
+            "action_started_at", "action_updated_at", "action_finished_at", "action_uid")
+
+
+def _enc(v):
+    try:
+        return vj.enc(v)
+    except Exception:  # noqa
+        return {"s": "<" + type(v).__name__ + ">"}
+
+
+def vm_digest(state):
+    """The observables CoreVM is compared on (same shape as Drive/CoreVMJson.lean::digest)."""
+    order = {u: n for n, u in enumerate(state.flow_states.keys())}
+    insts = []
+    for uid, fs in state.flow_states.items():
+        insts.append([uid, fs.flow_id, fs.status.value, int(fs.activated), fs.parent_uid,
+                      [[h.position, h.status.value] for h in fs.heads.values()], fs.loop_id, list(fs.child_flow_uids), list(fs.action_uids)])
+    index = []
+    for nm, ks in state.event_matching_heads.items():
+        for (f, h) in ks:
+            fs = state.flow_states.get(f)
+            pos = fs.heads[h].position if fs is not None and h in fs.heads else None
+            index.append([nm, order.get(f, 9999), pos])
+    out = []
+    for oe in state.outgoing_events:
+        out.append([oe.get("type"), sorted([k, _enc(v)] for k, v in oe.items() if k not in OUT_DROP), oe.get("action_uid")])
+    return {
+        "out": out,
+        "insts": insts,
+        "index": index,
+        "actions": [[u, a.name, a.status.value, a.flow_scope_count] for u, a in state.actions.items()],
+        "queue": len(state.internal_events),
+        "gctx": [[k, _enc(v)] for k, v in state.context.items()],
+    }
+
+
+def _model_event(ev):
+    """external event as `run_to_completion` converts it"""
+    if ev.get("type") == "StartFlow" and ev.get("flow_id") == "main" and len(ev) == 2:
+        return {"kind": "internal", "name": "StartFlow", "args": [["flow_id", {"s": "main"}]]}
+    kind = "action" if "Action" in ev["type"] else "plain"
+    d = {"kind": kind, "name": ev["type"], "args": [[k, _enc(v)] for k, v in ev.items() if k != "type"]}
+    if kind == "action" and "action_uid" in ev:
+        d["action_uid"] = ev["action_uid"]
+    return d
+
+
 def _waited_event(state, item, started):
     """An external event built from what the k-th registered (non-internal) head is waiting for."""
     sm = cv.sm
@@ -185,6 +235,11 @@ def run_impl(case):
             obs["skip"] = "build:" + type(e).__name__ + ":" + str(e)[:120]
             return obs
         obs["flows"] = {fid: len(c.elements) for fid, c in state.flow_configs.items()}
+        if case.get("vm", True):
+            try:
+                obs["prog"] = trvm.program_to_json(state)
+            except Exception as e:  # noqa
+                obs["prog_error"] = type(e).__name__ + ":" + str(e)[:100]
         started = []   # uids of actions the program started and that are not finished yet: [uid, name]
         events = [["start_main"]] + list(case["history"])
         auto = case.get("auto") or {}
@@ -260,6 +315,8 @@ def run_impl(case):
             step["ops"], step["op_problems"] = cv.group_ops(prims)
             step["choices"] = cv.take_choices()
             step["snap"] = snapshot(state)
+            step["vm"] = vm_digest(state)
+            step["clock"] = int(cv.REC.clock)
             out = []
             for oe in state.outgoing_events:
                 d = {k: v for k, v in oe.items() if k not in ("uid", "event_created_at", "source_uid", "action_info_modality", "action_info_modality_policy")}
@@ -298,17 +355,79 @@ def model_requests(case, obs):
             segs.append(st["ops"])
     if not segs:
         return []
-    return [{"m": "C09.replay", "segments": segs}]
+    reqs = [{"m": "C09.replay", "segments": segs}]
+    if "prog" in obs:
+        evs = []
+        for st in obs["steps"]:
+            if "vm" in st and "event" in st:
+                evs.append({"ev": _model_event(st["event"]), "choices": [c[1] for c in st.get("choices", [])], "clock": st.get("clock", 0)})
+        reqs.append({"m": "C09.run", "prog": obs["prog"], "events": evs, "fuel": 300})
+    return reqs
 
 
 def _multiset(entries):
     return sorted(entries)
 
 
+def _norm_digest(d):
+    return {"out": d["out"], "insts": [i[:5] + [sorted(i[5])] + i[6:] for i in d["insts"]], "index": sorted(d["index"], key=lambda e: json.dumps(e)),
+            "actions": d["actions"], "queue": d["queue"], "gctx": d["gctx"]}
+
+
+def compare_vm(case, obs, res):
+    """CoreVM correspondence after every external event. Records what happened in obs["_vm"] (for the tags)."""
+    info = {"compared": 0, "stop": None}
+    obs["_vm"] = info
+    if not isinstance(res, list):
+        return f"CoreVM driver failed: {res}"
+    steps = [st for st in obs["steps"] if "vm" in st and "event" in st]
+    real, model = [], []
+    for n, st in enumerate(steps):
+        if n >= len(res):
+            return f"CoreVM returned {len(res)} digests for {len(steps)} events"
+        m = res[n]
+        if m["res"] == "unsupported":
+            info["stop"] = "unsupported:" + m["why"]
+            break
+        if m["res"] == "fuel":
+            info["stop"] = "fuel"
+            break
+        if m["res"] == "raise":
+            if "exc" in st:
+                info["stop"] = "both-raised"
+                break
+            return f"event {n} {st['item']}: CoreVM raised {m['cls']} ({m.get('msg')}) but the interpreter did not"
+        if "exc" in st:
+            return f"event {n} {st['item']}: the interpreter raised {st['exc']} but CoreVM did not"
+        if not m.get("guards_ok", True):
+            return f"event {n} {st['item']}: a guard of the index layer failed inside CoreVM"
+        real.append(_norm_digest(st["vm"]))
+        model.append(_norm_digest(m))
+        rc, mc = cv.canon_uids(real), cv.canon_uids(model)
+        if rc[-1] != mc[-1]:
+            diffs = [k for k in rc[-1] if rc[-1][k] != mc[-1][k]]
+            k = diffs[0]
+            return f"event {n} {st['item']}: CoreVM and the interpreter differ on {diffs}: {k}: model {json.dumps(mc[-1][k])[:600]} real {json.dumps(rc[-1][k])[:600]}"
+        mch = [list(c) for c in m.get("choices", [])]
+        rch = [list(c) for c in st.get("choices", [])]
+        if mch != rch:
+            return f"event {n} {st['item']}: tie-breaks differ: model {mch} real {rch}"
+        info["compared"] += 1
+    return None
+
+
 def compare(case, obs, mouts):
     if not mouts:
         return None
-    res = mouts[0]
+    r = compare_index(case, obs, mouts[0])
+    if r:
+        return r
+    if len(mouts) > 1:
+        return compare_vm(case, obs, mouts[1])
+    return None
+
+
+def compare_index(case, obs, res):
     if not isinstance(res, list):
         return f"model replay failed: {res}"
     i = 0
@@ -476,6 +595,10 @@ def tags(case, obs):
     if obs.get("timeout"):
         return t + ["timeout"]
     t.append("steps:" + str(min(40, len(obs["steps"]) // 5 * 5)))
+    vm = obs.get("_vm")
+    if vm is not None:
+        t.append("vm:events-agreed:" + str(min(40, vm["compared"] // 2 * 2)))
+        t.append("vm:" + (vm["stop"] or "complete")[:70])
     opk = set()
     nops = 0
     for st in obs["steps"]:
